@@ -114,3 +114,77 @@ Definition is_arrow (k : fkind) : bool := match k with FArrow | FAsyncArrow => t
 Definition is_generator_kind (k : fkind) : bool := match k with FGenerator | FAsyncGenerator => true | _ => false end.
 Definition is_async_kind (k : fkind) : bool := match k with FAsync | FAsyncArrow | FAsyncGenerator => true | _ => false end.
 Definition is_constructor_kind (k : fkind) : bool := match k with FNormal | FCtorBase | FCtorDerived => true | _ => false end.
+
+(* ---- early errors (ECMA-262 static semantics: 8.3 Labels, 14.2.1, 14.7.4.1, 14.12.1, 14.15.1, 15.1.1, 15.2.1, 16.1.1) for the fragment.
+   Function bodies are checked through the program's function table, so expressions need not be traversed. *)
+Fixpoint has_dup (l : list str) : bool :=
+  match l with [] => false | x :: t => mem_str x t || has_dup t end.
+Definition inter_nonempty (a b : list str) : bool := existsb (fun x => mem_str x b) a.
+
+(* LexicallyDeclaredNames of a statement list in block position (function declarations are lexical there) and at the
+   top level of a function / script (function declarations are var-like there) *)
+Definition block_lex_names (b : list stmt) : list str := map fst (lex_decls b) ++ map fst (fun_decls b).
+Definition top_lex_names (b : list stmt) : list str := map fst (lex_decls b).
+Definition top_var_names (b : list stmt) : list str := var_names b ++ map fst (fun_decls b).
+Definition block_early (b : list stmt) : bool :=
+  has_dup (block_lex_names b) || inter_nonempty (block_lex_names b) (var_names b).
+
+Definition head_lex_names (h : for_head) : list str :=
+  match h with FHDecl KVar _ => [] | FHDecl _ p => pat_names p | FHPat _ => [] end.
+
+(* ls: enclosing labels; its: labels of enclosing iteration statements; pend: labels directly prefixing this statement;
+   in_iter / in_brk: inside an iteration statement / inside an iteration statement or a switch *)
+Fixpoint stmt_early (ls its pend : list str) (in_iter in_brk : bool) (s : stmt) {struct s} : bool :=
+  let any := fun (ls its : list str) (in_iter in_brk : bool) =>
+               fix any (l : list stmt) : bool :=
+                 match l with [] => false | x :: t => stmt_early ls its [] in_iter in_brk x || any t end in
+  match s with
+  | SLabel l s' => mem_str l ls || stmt_early (l :: ls) its (l :: pend) in_iter in_brk s'
+  | SBreak None => negb in_brk
+  | SBreak (Some l) => negb (mem_str l ls)
+  | SContinue None => negb in_iter
+  | SContinue (Some l) => negb (mem_str l its)
+  | SBlock b => block_early b || any ls its in_iter in_brk b
+  | SIf _ t f => stmt_early ls its [] in_iter in_brk t ||
+                 match f with Some f' => stmt_early ls its [] in_iter in_brk f' | None => false end
+  | SFor init _ _ b =>
+      (match init with
+       | FIDecl (KLet | KConst) ds => has_dup (decls_names ds) || inter_nonempty (decls_names ds) (var_names_stmt b)
+       | _ => false end)
+      || stmt_early ls (pend ++ its) [] true true b
+  | SForIn h _ b | SForOf h _ b =>
+      has_dup (head_lex_names h) || inter_nonempty (head_lex_names h) (var_names_stmt b)
+      || stmt_early ls (pend ++ its) [] true true b
+  | SWhile _ b | SDoWhile b _ => stmt_early ls (pend ++ its) [] true true b
+  | SWith _ b => stmt_early ls its [] in_iter in_brk b
+  | SSwitch _ cases =>
+      block_early (flat_map snd cases) ||
+      (fix cs (l : list (option expr * list stmt)) : bool :=
+         match l with [] => false | c :: t => any ls its in_iter true (snd c) || cs t end) cases
+  | STry b h f =>
+      block_early b || any ls its in_iter in_brk b ||
+      (match h with
+       | Some (param, hb) =>
+           (match param with
+            | Some p => has_dup (pat_names p) || inter_nonempty (pat_names p) (block_lex_names hb)
+            | None => false end)
+           || block_early hb || any ls its in_iter in_brk hb
+       | None => false end) ||
+      (match f with Some fb => block_early fb || any ls its in_iter in_brk fb | None => false end)
+  | _ => false
+  end.
+
+Definition body_early (params : list str) (body : list stmt) : bool :=
+  has_dup (top_lex_names body) || inter_nonempty (top_lex_names body) (top_var_names body)
+  || inter_nonempty (top_lex_names body) params
+  || existsb (stmt_early [] [] [] false false) body.
+
+Definition unique_params_required (f : func) : bool :=
+  f_strict f || negb (simple_params f) ||
+  match f_kind f with FNormal | FGenerator | FAsync | FAsyncGenerator => false | _ => true end.
+
+Definition func_early (f : func) : bool :=
+  body_early (param_names f) (f_body f) || (unique_params_required f && has_dup (param_names f)).
+
+Definition early_errors (P : prog) : bool :=
+  body_early [] (p_body P) || existsb func_early (p_funcs P).
